@@ -198,28 +198,46 @@ Definition mcall (T : table) (x : cls) (n : name) : res :=
   end.
 
 (* ---- builtin rows as regenerated ---- *)
+(* does a builtin dunder accept an instance of a USER class as its argument?  never / always (object, Any,
+   unannotated) / when the class has one of the listed dunders (structural protocol: e.g. pytype matches a
+   class with __getitem__ against Iterable; str.__mod__ treats it as a mapping at run time) *)
+Inductive uacc := UNone | UAll | UHasAny (l : list name).
+
 Record bentry := mk_bentry {
   be_name : name; be_owner : cls; be_call0 : bool;
   be_acc : list cls;            (* builtin heads accepted as the single argument *)
-  be_acc_user : bool            (* is an instance of a user class accepted *)
+  be_uacc : uacc                (* user-class instances accepted as the single argument *)
 }.
 Record brow := mk_brow { br_mro : list cls; br_entries : list bentry }.
 
 Definition mem (a : nat) (l : list nat) : bool := existsb (Nat.eqb a) l.
 
-Definition entry_of (nb : nat) (b : bentry) : entry :=
-  mk_entry (be_owner b) (be_call0 b) (fun a => if a <? nb then mem a (be_acc b) else be_acc_user b).
+(* a user class of the chain of a defines n *)
+Definition user_has (nb : nat) (U : table) (a : cls) (n : name) : bool :=
+  existsb (fun k => (nb <=? k) && match ci_own (U k) n with Some _ => true | None => false end)
+          (ci_look (U a)).
+
+Definition uacc_ok (nb : nat) (U : table) (u : uacc) (a : cls) : bool :=
+  match u with
+  | UNone => false
+  | UAll => true
+  | UHasAny l => existsb (user_has nb U a) l
+  end.
+
+Definition entry_of (nb : nat) (U : table) (b : bentry) : entry :=
+  mk_entry (be_owner b) (be_call0 b)
+           (fun a => if a <? nb then mem a (be_acc b) else uacc_ok nb U (be_uacc b) a).
 
 Definition find_entry (r : brow) (n : name) : option bentry :=
   find (fun b => be_name b =? n) (br_entries r).
 
-Definition row_info (nb : nat) (c : cls) (r : brow) : clsinfo :=
-  mk_cls (br_mro r) [c] (fun n => option_map (entry_of nb) (find_entry r n)) None.
+Definition row_info (nb : nat) (U : table) (c : cls) (r : brow) : clsinfo :=
+  mk_cls (br_mro r) [c] (fun n => option_map (entry_of nb U) (find_entry r n)) None.
 
 (* builtin rows below length rows, user classes above *)
 Definition mk_table (rows : list brow) (U : table) : table :=
   fun c => match nth_error rows c with
-           | Some r => row_info (length rows) c r
+           | Some r => row_info (length rows) U c r
            | None => U c
            end.
 
@@ -308,22 +326,30 @@ Definition pair_faithful (rowsT rowsR : list brow) : bool :=
           (is_err (binop_c (mk_table rowsR no_users) x n y)))
     binop_names) (heads rowsT)) (heads rowsT).
 
-Definition acc_user (rows : list brow) (c : cls) (n : name) : bool :=
+Definition uacc_of (rows : list brow) (c : cls) (n : name) : uacc :=
   match nth_error rows c with
-  | Some r => match find_entry r n with Some b => be_acc_user b | None => false end
-  | None => false
+  | Some r => match find_entry r n with Some b => be_uacc b | None => UNone end
+  | None => UNone
+  end.
+
+Definition uacc_le (r t : uacc) : bool :=
+  match r, t with
+  | UNone, _ => true
+  | _, UAll => true
+  | UHasAny lr, UHasAny lt => forallb (fun n => mem n lt) lr
+  | _, _ => false
   end.
 
 (* a builtin dunder that accepts a user-class instance at run time also accepts it in the stub *)
 Definition ucol_faithful (rowsT rowsR : list brow) : bool :=
   forallb (fun c => forallb (fun n =>
-    excl_fp_bin c n (length rowsT) || implb (acc_user rowsR c n) (acc_user rowsT c n))
+    excl_fp_bin c n (length rowsT) || uacc_le (uacc_of rowsR c n) (uacc_of rowsT c n))
     dunder1_names) (heads rowsT).
 
 Definition bentry_le (nb : nat) (br bt : bentry) : bool :=
   implb (be_call0 br) (be_call0 bt) &&
   forallb (fun a => implb (mem a (be_acc br)) (mem a (be_acc bt))) (seq 0 nb) &&
-  implb (be_acc_user br) (be_acc_user bt).
+  uacc_le (be_uacc br) (be_uacc bt).
 
 (* object's row (the tail of every user lookup chain): whatever exists at run time exists, at least as
    permissive, in the stub *)
